@@ -14,6 +14,8 @@ func init() { register("C12", "exploration", runC12) }
 
 func runC12(r *engine.Run) {
 	r.Rule = "E1 over a finite space, enumerated completely in both tiers: 24 band names (14 + 10 deprecated aliases) x repeater x dwell-time; per configuration every uplink channel index (and -1, n, n+1), every (uplink DR, RX1 offset) in [-2..16] x [-2..9], and DevAddr(16) x beaconTime(36: period boundaries -1 ns / 0 / +1 ns at beacon periods of every magnitude) for the ping-slot rule; for bands with dynamic channels the channel part is repeated after adding custom channels and disabling one. Oracle: the snapshot hook gives exact definedness and direction flags of data-rates; the region's rules (RX1 channel rule, RX1 data-rate formula, fixed ping-slot frequency or hopping rule) come from mc/spec/region.go. Non-trivial: a call that returned a value which was compared with the region's rule; distinct by construction."
+	r.Rule += " E3 (schedules): one configured band object, new in every execution, read by two or three threads at once (RX1 frequency / channel / data-rate and ping-slot lookups; a network server answers many devices from one band configuration): every interleaving of the instrumented accesses (preemption-bounded and unbounded with state-key pruning); every thread gets the answers it gets alone."
+	mergeSchedSummary(r, "C12")
 	bandConstructionStability(r)
 	bandGetterHistory(r)
 	r.Assume("DevAddr and beacon time use 16 x 36 value alphabets (all residues mod 8 of both, the 128 s period boundary one nanosecond before / at / after it for ten period numbers from 2^10 to 7.2e7, 2^31 s); everything else is finite and enumerated completely")
